@@ -142,7 +142,71 @@ def rows(ctx: Ctx, params):
     return out
 
 
-def toy_pairing(ctx: Ctx):
+def record_loop(pm, fam, Q, P):
+    """Loop states of miller_loop at every evaluation of its `for` line (sys.settrace), or None when the function
+    no longer has that shape."""
+    import inspect
+    import sys
+    fn = pm.miller_loop
+    code = fn.__code__
+    try:
+        src, first = inspect.getsourcelines(fn)
+    except OSError:
+        return None
+    fl = [first + k for k, ln in enumerate(src) if ln.strip().startswith("for ") and ln.rstrip().endswith(":")]
+    if len(fl) != 1:
+        return None
+    states = []
+    cf = lambda x: [int(v) if isinstance(v, int) else int(v.n) for v in x.coeffs]        # noqa: E731
+
+    def tracer(frame, event, arg):
+        if frame.f_code is not code:
+            return None
+        if event == "line" and frame.f_lineno == fl[0]:
+            loc = frame.f_locals
+            try:
+                if fam == "ref":
+                    R = loc["R"]
+                    states.append({"f": cf(loc["f"]), "fd": [1] + [0] * 11,
+                                   "R": [cf(R[0]), cf(R[1]), [1] + [0] * 11] if R is not None else [[0] * 12, [1] + [0] * 11, [0] * 12]})
+                else:
+                    R = loc["twist_R"]
+                    states.append({"f": cf(loc["f_num"]), "fd": cf(loc["f_den"]), "R": [cf(R[0]), cf(R[1]), cf(R[2])]})
+            except Exception:  # noqa: BLE001 -- other local names: not the recorded shape
+                states.append(None)
+        return tracer
+    old = sys.gettrace()
+    sys.settrace(tracer)
+    try:
+        if fam == "ref":
+            fn(pm.twist(Q), pm.cast_point_to_fq12(P))
+        else:
+            fn(Q, P, final_exponentiate=False)
+    finally:
+        sys.settrace(old)
+    if not states or any(s is None for s in states):
+        return None
+    return states
+
+
+def loop_rows(ctx: Ctx, params):
+    rng = random.Random(ctx.seed + 193)
+    M = modules(params)
+    out = []
+    pairs = [(1, 1), (TR - 1, 5)] + [(rng.randrange(1, TR), rng.randrange(1, TR)) for _ in range(1 if ctx.tier == "quick" else 12)]
+    for fam in ("ref", "opt"):
+        c, pm, FQ, FQ2, FQ12 = M[fam]
+        for (a, b) in pairs:
+            try:
+                st = record_loop(pm, fam, c.multiply(c.G2, b), c.multiply(c.G1, a))
+            except Exception:  # noqa: BLE001 -- failures of the pairing itself are judged by the "pair" rows
+                st = None
+            if st is not None:
+                out.append({"op": "mloop", "m": fam, "a": a, "b": b, "x": [], "r": [], "states": st, "exc": ""})
+    return out
+
+
+def toy_pairing(ctx: Ctx, loops=True):
     params = find_params()
     rs = rows(ctx, params)
     ctx.note("toy_pairing_curve", params)
@@ -151,3 +215,20 @@ def toy_pairing(ctx: Ctx):
     ctx.sample({"toy_pairing_row": {k: v for k, v in rs[3].items()}})
     tables.validate(ctx, "ToyPairing", rs, invariants=["PremisesOK", "RowsOK"], files={"PARAMS": [params]},
                     tag=lambda r: f"toypairing:{r['m']}:{r['op']}", describe=lambda r: str(r)[:400], java_opts="-Xss256m -Xmx8g")
+    # step level: recorded loop states of the two Miller loops against MStep (conformance of the model, reported)
+    if not loops:
+        return
+    lr = loop_rows(ctx, params)
+    if not lr:
+        ctx.note("miller_loop_steps_are_modelled_steps", "not recorded (miller_loop no longer has the recorded shape)")
+        return
+    d = ctx.tmp / "tbl_ToyPairing"
+    tables.write_ndjson(d / "loops.ndjson", lr)
+    res = ctx.tlc("ToyPairing", "SPECIFICATION Spec\nINVARIANT ModelOK\n", cont=True, name="ToyPairingLoops",
+                  env={"TABLE": str(d / "loops.ndjson"), "PARAMS": str(d / "PARAMS.ndjson")}, timeout=3600,
+                  java_opts="-Xss256m -Xmx8g")
+    ctx.add_cov("miller_loop_states_recorded", sum(len(r["states"]) for r in lr))
+    ctx.note("miller_loop_steps_are_modelled_steps", not res.violations)
+    ctx.log(f"toy pairing: {len(lr)} recorded Miller loops ({sum(len(r['states']) for r in lr)} loop states), "
+            f"{len(res.violations)} differ from ToyPairing!MStep (reported, not a violation)")
+
